@@ -45,4 +45,13 @@ H3Error cellToChildPos_safe(H3Index child, int parentRes, int64_t *out)
 __CPROVER_requires(__CPROVER_is_fresh(out, sizeof(int64_t)))
 __CPROVER_assigns(*out)
 __CPROVER_ensures(__CPROVER_return_value <= 15 && __CPROVER_return_value != S_ERR_FAILED);
+/* error clauses for ALL cells at once (partial contracts: precondition = the resolution argument is out of the valid range) */
+H3Error cellToChildPos_badres(H3Index child, int parentRes, int64_t *out)
+__CPROVER_requires(__CPROVER_is_fresh(out, sizeof(int64_t)) && (parentRes < 0 || parentRes > S_RES(child)))
+__CPROVER_assigns(*out)
+__CPROVER_ensures(__CPROVER_return_value == ((parentRes < 0 || parentRes > 15) ? S_ERR_RES_DOMAIN : S_ERR_RES_MISMATCH) && *out == __CPROVER_old(*out));
+H3Error childPosToCell_badres(int64_t childPos, H3Index parent, int childRes, H3Index *child)
+__CPROVER_requires(__CPROVER_is_fresh(child, sizeof(H3Index)) && (childRes < S_RES(parent) || childRes > 15))
+__CPROVER_assigns(*child)
+__CPROVER_ensures(__CPROVER_return_value == ((childRes < 0 || childRes > 15) ? S_ERR_RES_DOMAIN : S_ERR_RES_MISMATCH) && *child == __CPROVER_old(*child));
 #endif
